@@ -11,13 +11,21 @@ use std::sync::atomic::{AtomicBool, Ordering};
 use std::sync::Arc;
 use std::task::{Context, Poll, Wake, Waker};
 
-struct Flag(AtomicBool);
+struct Flag(AtomicBool, usize);
+impl Flag {
+    fn set(&self) {
+        // record wake-ups of tasks that were not already woken, in order (wake order is observable)
+        if !self.0.swap(true, Ordering::SeqCst) {
+            WAKES.with(|w| w.borrow_mut().push(self.1));
+        }
+    }
+}
 impl Wake for Flag {
     fn wake(self: Arc<Self>) {
-        self.0.store(true, Ordering::SeqCst)
+        self.set()
     }
     fn wake_by_ref(self: &Arc<Self>) {
-        self.0.store(true, Ordering::SeqCst)
+        self.set()
     }
 }
 
@@ -34,6 +42,12 @@ struct Table {
 
 thread_local! {
     static TABLE: RefCell<Table> = RefCell::new(Table::default());
+    static WAKES: RefCell<Vec<usize>> = RefCell::new(Vec::new());
+}
+
+/// task ids woken (false -> true transitions of their flag) since the last call, in order
+pub fn take_wakes() -> Vec<usize> {
+    WAKES.with(|w| std::mem::take(&mut *w.borrow_mut()))
 }
 
 struct Ctl;
@@ -49,9 +63,11 @@ impl CustomExecutor for Ctl {
 
 fn add(fut: Pin<Box<dyn Future<Output = ()>>>) {
     TABLE.with(|t| {
-        t.borrow_mut().tasks.push(Task {
+        let mut t = t.borrow_mut();
+        let id = t.tasks.len();
+        t.tasks.push(Task {
             fut: Some(fut),
-            flag: Arc::new(Flag(AtomicBool::new(true))),
+            flag: Arc::new(Flag(AtomicBool::new(true), id)),
             done: false,
         })
     })
@@ -71,6 +87,7 @@ pub fn reset() {
         }
         drop(tasks);
     }
+    take_wakes();
 }
 
 /// ids (spawn indices) of live woken tasks, in spawn order
